@@ -34,8 +34,8 @@ from cerberus.schema import DefinitionSchema
 from .. import codec, real, cases, rewrite, sched, families
 from ..lean import Driver
 
-FILES = ('cerberus/schema.py',)
-FILES_WIDE = ('cerberus/schema.py', 'cerberus/validator.py')
+FILES = ('cerberus/schema.py', 'cerberus/errors.py')
+FILES_WIDE = ('cerberus/schema.py', 'cerberus/errors.py', 'cerberus/validator.py')
 INF = 10 ** 9
 
 # ------------------------------------------------------------------ scenarios
@@ -161,7 +161,11 @@ def step_op(sc, op, objs, cfg, held):
         errs = repr(codec.canon_errs(v._errors, 1))
     except Exception:
         errs = repr(sorted(map(repr, v._errors)))
-    return ('call', op[0], canon(r), errs, canon(v.document))
+    try:
+        rendered = repr(v.errors)           # the error handler's view: per instance as well
+    except Exception as e:
+        rendered = 'errors raised ' + type(e).__name__
+    return ('call', op[0], canon(r), errs, canon(v.document), rendered)
 
 
 def program(sc, tid, objs, cfg):
@@ -194,10 +198,10 @@ def alone(sc, lazy_absent=False):
 
 # ------------------------------------------------------------------ B/C: real threads
 
-def run_plan(sc, plan, lazy_absent, files=FILES):
+def run_plan(sc, plan, lazy_absent, files=FILES, timeout=20.0):
     fresh(lazy_absent, sc)
     objs, cfg = copy.deepcopy(sc['objs']), copy.deepcopy(sc['cfg'])
-    s = sched.Sched([program(sc, t, objs, cfg) for t in range(len(sc['threads']))], plan, files)
+    s = sched.Sched([program(sc, t, objs, cfg) for t in range(len(sc['threads']))], plan, files, timeout=timeout)
     res = s.run((cschema,))
     return res, s
 
@@ -225,8 +229,15 @@ def worker_plans(args):
         try:
             res, s = run_plan(sc, plan, lazy_absent, FILES_WIDE if wide else FILES)
         except sched.Deadlock as e:
-            bad.append({'plan': plan, 'thread': None, 'got': 'scheduler: %s' % e, 'alone': None, 'infra': True})
-            continue
+            if 'nobody will release' in str(e):
+                # every thread waits for a lock: a deadlock of the code under test under this schedule
+                bad.append({'plan': plan, 'thread': None, 'got': 'deadlock: %s' % e, 'alone': repr(base)[:300], 'deadlock': True})
+                continue
+            try:            # a time-out: the machine may be busy; once more with a long time-out
+                res, s = run_plan(sc, plan, lazy_absent, FILES_WIDE if wide else FILES, timeout=120.0)
+            except sched.Deadlock as e2:
+                bad.append({'plan': plan, 'thread': None, 'got': 'scheduler: %s' % e2, 'alone': None, 'infra': True})
+                continue
         switches += len(s.trace_log)
         blocks += s.lock_blocks
         for t, r in enumerate(res):
@@ -552,6 +563,7 @@ def explore(ctx, n_scen, per_line, two, stress_reps, wide=False, first=0):
         if stress_reps:
             stress.append((ctx.seed, idx, rng.choice([2, 3, 4, 8]), stress_reps))
     procs = min(14, os.cpu_count() or 2)
+    infra = []
     with multiprocessing.get_context('fork').Pool(procs) as pool:
         for idx, lazy_absent, bad, nplans, switches, blocks in pool.imap_unordered(worker_plans, jobs):
             ctx.cov['evaluations'] += nplans
@@ -562,7 +574,7 @@ def explore(ctx, n_scen, per_line, two, stress_reps, wide=False, first=0):
             for b in bad:
                 sc = make_scenario(ctx.seed, idx)
                 if b.get('infra'):
-                    ctx.port_mismatch('scheduler', describe(sc), b['got'], None, 'scheduler fault')
+                    infra.append('%s (scenario %d, plan %r)' % (b['got'], idx, b['plan']))
                     continue
                 ctx._distinct.add('bad-%d-%r' % (idx, b['plan']))
                 ctx.fail('C18: under a deterministic schedule a thread has an outcome it does not have alone',
@@ -579,6 +591,14 @@ def explore(ctx, n_scen, per_line, two, stress_reps, wide=False, first=0):
                          {'scenario': describe(sc), 'seed': ctx.seed, 'scenario_index': idx, 'stress': True,
                           'nthreads': nthreads},
                          classifier='thread_interference', detail=b)
+    if infra and not ctx.failures:
+        _raise_infra(infra)
+
+
+def _raise_infra(infra):
+    if infra:
+        from .. import core
+        raise core.InfraError('the thread scheduler timed out twice (busy machine?): %s' % infra[0])
 
 
 def run(ctx, n):
